@@ -1,5 +1,5 @@
-\* exhaustive: one payer, all balances 0..4 x 0..4, lists of <= 2 sources over 4 data sources,
-\* ask 1..2, every limit vector in 0..5 x 0..5 (covers cost-1, cost, cost+1), two requests in a row
+\* exhaustive quick facet: one payer, balances 0..2 x 0..2, lists of <= 2 sources over 4 data sources, ask 1..2, every limit vector
+\* in 0..3 x 0..3, two requests in a row with / without a TSS encoder, signing fee 0 or 2, resolution at the end of a block
 CONSTANTS
   Denom = {"u", "x"}
   DS = {1, 2, 3, 4}
@@ -7,14 +7,17 @@ CONSTANTS
   TreasuryOf <- MCTreasuryOf
   Treasury = {"t1", "t2", "t3"}
   Payer = {"p1"}
-  MaxBal = 3
+  MaxBal = 2
   AskSet = {1, 2}
   MaxSrc = 2
-  MaxLimit = 4
+  MaxLimit = 3
   MaxReq = 2
+  SigFeeSet = {0, 2}
+  SigDenom = "u"
+  EncSet = {TRUE, FALSE}
 INIT Init
 NEXT Next
 VIEW View
 INVARIANTS NonNegative
-PROPERTIES Exact Conserved
+PROPERTIES Exact Conserved Signing
 CHECK_DEADLOCK FALSE
